@@ -160,9 +160,17 @@ impl Fx {
         let old = book_old();
         let old_xlsx = dump::save_bytes(&old, false).expect("old workbook saves");
         let src_xlsx = dump::save_bytes(&new, false).expect("new workbook saves");
+        // a save mutates the workbook's shared string table (it only grows, see C12): bring every book into its
+        // steady state so that the reference save, the fault-free measurement and every faulted save start alike
+        let big = book_big();
+        for _ in 0..2 {
+            let _ = dump::save_bytes(&new, false);
+            let _ = dump::save_bytes(&new, true);
+            let _ = dump::save_bytes(&big, false);
+        }
         Fx {
             new,
-            big: book_big(),
+            big,
             csv: book_csv(220, 6),
             csv_small: book_csv(3, 2),
             old_xlsx,
@@ -322,7 +330,22 @@ pub fn take_panic_info() -> (String, String) {
 /// stable symptom for a panic: source file (no directories, no line) + normalised message
 pub fn panic_symptom(file: &str, msg: &str) -> String {
     let base = file.rsplit('/').next().unwrap_or(file);
-    format!("panic@{}:{}", base, panic_class(msg))
+    let class = if msg.starts_with("called `Result::unwrap()` on an `Err` value") {
+        if msg.contains("Os {") || msg.contains("Error { kind") || msg.contains("Kind(") {
+            "unwrap-on-io-error".to_string()
+        } else {
+            "unwrap-on-err".to_string()
+        }
+    } else if msg.starts_with("called `Option::unwrap()` on a `None` value") {
+        "unwrap-on-none".to_string()
+    } else {
+        let mut s: String = msg.chars().map(|c| if c.is_ascii_digit() { '#' } else { c }).collect();
+        while s.contains("##") {
+            s = s.replace("##", "#");
+        }
+        s.chars().take(48).collect()
+    };
+    format!("panic@{}:{}", base, class)
 }
 
 /// Run `f` guarded in this process (used by the sink injector and the strace child).
@@ -463,14 +486,18 @@ pub struct CaseDir {
     pub aux: PathBuf,
 }
 impl CaseDir {
-    pub fn create(name: &str) -> CaseDir {
-        let root = PathBuf::from(work_dir("C13")).join(name);
-        let _ = restore_and_remove(&root);
-        let d = root.join("d");
-        let aux = root.join("aux");
-        std::fs::create_dir_all(&d).expect("case dir");
-        std::fs::create_dir_all(&aux).expect("case aux dir");
-        CaseDir { root, d, aux }
+    /// Private scratch directory of THIS process for the given injector (`<work>/C13/<prefix>-<pid>/{d,aux}`); it is
+    /// emptied before and after every case (creating and deleting whole trees per case made 16 workers queue up
+    /// on the parent directory), and deleted by the parent at the end of the run.
+    pub fn create(prefix: &str) -> CaseDir {
+        let root = PathBuf::from(work_dir("C13")).join(format!("{}-{}", prefix, std::process::id()));
+        let cd = CaseDir::at(&root);
+        if root.exists() {
+            cd.remove();
+        }
+        std::fs::create_dir_all(&cd.d).expect("case dir");
+        std::fs::create_dir_all(&cd.aux).expect("case aux dir");
+        cd
     }
     pub fn at(root: &Path) -> CaseDir {
         CaseDir { root: root.to_path_buf(), d: root.join("d"), aux: root.join("aux") }
@@ -489,30 +516,58 @@ impl CaseDir {
             std::fs::write(self.dest(wl), fx.old_bytes(wl)).expect("old destination");
         }
     }
+    /// empty `d` and `aux` (directories stay)
     pub fn remove(&self) {
-        let _ = restore_and_remove(&self.root);
-    }
-}
-fn restore_and_remove(root: &Path) -> std::io::Result<()> {
-    use std::os::unix::fs::PermissionsExt;
-    if !root.exists() {
-        return Ok(());
-    }
-    // directories may have been made read-only by a case
-    fn walk(p: &Path) {
-        if let Ok(md) = std::fs::symlink_metadata(p) {
-            if md.is_dir() {
-                let _ = std::fs::set_permissions(p, std::fs::Permissions::from_mode(0o755));
-                if let Ok(rd) = std::fs::read_dir(p) {
-                    for e in rd.flatten() {
-                        walk(&e.path());
+        use std::os::unix::fs::PermissionsExt;
+        for dir in [&self.d, &self.aux] {
+            let rd = match std::fs::read_dir(dir) {
+                Ok(r) => r,
+                Err(_) => {
+                    let _ = std::fs::set_permissions(dir, std::fs::Permissions::from_mode(0o755));
+                    match std::fs::read_dir(dir) {
+                        Ok(r) => r,
+                        Err(_) => continue,
                     }
+                }
+            };
+            for e in rd.flatten() {
+                let p = e.path();
+                let is_dir = e.file_type().map(|t| t.is_dir()).unwrap_or(false);
+                let r = if is_dir { std::fs::remove_dir_all(&p) } else { std::fs::remove_file(&p) };
+                if r.is_err() {
+                    // a case made the directory read-only
+                    let _ = std::fs::set_permissions(dir, std::fs::Permissions::from_mode(0o755));
+                    let _ = if is_dir { std::fs::remove_dir_all(&p) } else { std::fs::remove_file(&p) };
                 }
             }
         }
     }
-    walk(root);
-    std::fs::remove_dir_all(root)
+    pub fn make_writable(&self) {
+        use std::os::unix::fs::PermissionsExt;
+        let _ = std::fs::set_permissions(&self.d, std::fs::Permissions::from_mode(0o755));
+    }
+}
+/// delete the scratch directories of finished processes (parent, at the end of a run / replay): a directory
+/// `<prefix>-<pid>` is removed when <pid> is this process or no longer alive, so concurrent runs do not disturb each other
+pub fn purge_scratch() {
+    use std::os::unix::fs::PermissionsExt;
+    let me = std::process::id().to_string();
+    if let Ok(rd) = std::fs::read_dir(work_dir("C13")) {
+        for e in rd.flatten() {
+            if !e.file_type().map(|t| t.is_dir()).unwrap_or(false) {
+                continue;
+            }
+            let name = e.file_name().to_string_lossy().to_string();
+            let pid = name.rsplit('-').next().unwrap_or("").to_string();
+            if pid.is_empty() || !pid.chars().all(|c| c.is_ascii_digit()) {
+                continue;
+            }
+            if pid == me || !Path::new(&format!("/proc/{}", pid)).exists() {
+                let _ = std::fs::set_permissions(e.path().join("d"), std::fs::Permissions::from_mode(0o755));
+                let _ = std::fs::remove_dir_all(e.path());
+            }
+        }
+    }
 }
 
 #[derive(Clone, Debug, PartialEq)]
